@@ -80,6 +80,15 @@ def wrappers(prog):
 
 def p2p3(chk, prog, lens):
     ws = wrappers(prog)
+    # the conversion must be the same in every build: a counter or pointer that is advanced inside assert() stands
+    # still when the unit is compiled with -DNDEBUG (the analysis itself sees the -UNDEBUG expansion)
+    from ..rules import assert_side_effects
+    for f in prog.functions:
+        if '/format/detail/' in f.file and f.body is not None:
+            for y in assert_side_effects(f):
+                chk.check(False, 'P2', f.name, 'no state change inside assert(): the conversion is the same with and '
+                          'without NDEBUG', f.loc(y), 'the operand of assert() modifies a variable; with -DNDEBUG the '
+                          'modification does not happen')
     chk.require(len(ws) >= 32, 'only %d conversion wrappers found (expected 32)' % len(ws))
     for f in ws:
         grouped = f.short.startswith('grouped')
